@@ -163,7 +163,7 @@ fn main() {
             std::panic::set_hook(Box::new(|_| {}));
             let mut sites = std::collections::BTreeMap::<String, usize>::new();
             let mut accepted = 0; let mut rejected = 0; let mut parsefail = 0;
-            for pos in 0..bytes.len().min(200) {
+            for pos in 0..bytes.len() {
                 for val in [0u8, 1, 2, 3, 127, 128, 254, 255] {
                     let mut b = bytes.clone(); if b[pos] == val { continue; } b[pos] = val;
                     let loc = std::sync::Arc::new(std::sync::Mutex::new(String::new()));
